@@ -158,6 +158,23 @@ pub fn check(id: &str, tier: Tier) -> i32 {
       }
     }
     bounds.push(json!({"kind": "clone/drop programs", "pair_bound": b2, "triple_bound": b3, "menu": menu.iter().map(|p| progs_str(&[p.clone()])).collect::<Vec<_>>()}));
+    // the threads share ONE arena value by reference (count 1) and create further values from it concurrently:
+    // clones and owned handles; the shared value outlives them, so any teardown inside the schedule is early
+    let shared: Vec<Vec<TOp>> = vec![vec![CloneArena, DropArena], vec![BO(16), DropOwn], vec![CloneArena, BO(16), DropOwn, DropArena], vec![BO(16)], vec![CloneArena, CloneArena, DropArena, DropArena]];
+    let mut scount = 0;
+    for fl in [Fl::Optimistic, Fl::None] {
+      for i in 0..shared.len() {
+        for j in i..shared.len() {
+          items.push((Harness { fl, unify: true, min_seg: 8, cap: 256, shape: if fl == Fl::None { 0 } else { 3 }, progs: vec![shared[i].clone(), shared[j].clone()], own_arenas: false, leave: if fl == Fl::None { 64 } else { 0 }, odd: 0, reserved: 0 }, b2));
+          scount += 1;
+          if thorough || (i == 0 && j <= 1) {
+            items.push((Harness { fl, unify: true, min_seg: 8, cap: 256, shape: if fl == Fl::None { 0 } else { 3 }, progs: vec![shared[i].clone(), shared[j].clone(), shared[0].clone()], own_arenas: false, leave: if fl == Fl::None { 64 } else { 0 }, odd: 0, reserved: 0 }, b3));
+            scount += 1;
+          }
+        }
+      }
+    }
+    bounds.push(json!({"kind": "values created concurrently from one shared arena value (count 1)", "harnesses": scount, "pair_bound": b2, "triple_bound": b3}));
   }
   if id != "C13" {
     let menu2: Vec<P> = if id == "C07" { vec![P::B16, P::B24, P::U64, P::AB8, P::B16D, P::U64D, P::Dp, P::B16B16, P::DpB16, P::Disc, P::B8U64, P::DiscB16] } else { vec![P::B16, P::B24, P::U64, P::AB8, P::B16D, P::U64D, P::Dp, P::B16B16, P::DpB16, P::B8U64, P::B24D] };
